@@ -70,7 +70,7 @@ QuoteV(v) == IF ~v.q THEN [v EXCEPT !.q = TRUE] ELSE [V("quote", 0, "", "", TRUE
 \* ------------------------------------------------------- builtin registry
 \* (name -> kind) of everything this machine knows in package lisp
 OPS    == {"quote", "if", "progn", "let", "let*", "flet", "labels", "lambda", "cond", "and", "or",
-           "set!", "handler-bind", "ignore-errors", "dotimes", "quasiquote"}
+           "set!", "handler-bind", "ignore-errors", "dotimes", "quasiquote", "thread-first", "thread-last"}
 MACROS == {"defun", "defmacro"}
 FUNS   == {"+", "-", "*", "=", "<", ">", "<=", ">=", "not", "list", "cons", "car", "cdr", "first", "rest",
            "length", "identity", "nil?", "set", "funcall", "apply", "error", "rethrow", "probe", "boom"}
@@ -89,7 +89,7 @@ Arity(name) ==
     [] name = "set" -> <<2, -1>>
     [] name \in {"funcall", "apply", "error"} -> <<1, -1>>
     [] name \in {"rethrow", "boom"} -> <<0, 0>>
-    [] name \in {"let", "let*", "flet", "labels", "lambda", "handler-bind", "dotimes"} -> <<1, -1>>
+    [] name \in {"let", "let*", "flet", "labels", "lambda", "handler-bind", "dotimes", "thread-first", "thread-last"} -> <<1, -1>>
     [] name \in {"defun", "defmacro"} -> <<2, -1>>
     [] OTHER -> <<0, -1>>
 ArityOK(name, k) == k >= Arity(name)[1] /\ (Arity(name)[2] = -1 \/ k <= Arity(name)[2])
@@ -634,6 +634,17 @@ OpStep(s) ==
                    ELSE IF BadKey(cs.c[1]) THEN OpFail(s1, le)
                    ELSE LET s2 == PutVar(s1, le, cs.c[1].s, VInt(IF cnt.n > 0 THEN cnt.n ELSE 0)) IN
                         TailEval(s2, o1, IF Len(cs.c) = 3 THEN cs.c[3] ELSE VNil, le)
+    [] o.op \in {"thread-first", "thread-last"} ->
+         \* the threaded value is spliced into the next call form *as an expression*
+         LET exprs == Rest(a)  ne == Len(exprs) IN
+         IF \E j \in 1..ne : exprs[j].t # "list" \/ exprs[j].q \/ Len(exprs[j].c) < 1 THEN OpFail(s, env)
+         ELSE IF ne = 0 THEN TailEval(s, o, a[1], env)
+         ELSE LET val == IF o.j = 0 THEN a[1] ELSE Top(o.vals)
+                  ex == exprs[o.j + 1]
+                  cells == IF o.op = "thread-first" THEN <<ex.c[1], val>> \o Rest(ex.c) ELSE ex.c \o <<val>>
+                  form == VList(cells) IN
+              IF o.j + 1 = ne THEN TailEval(s, [o EXCEPT !.j = @ + 1], form, env)
+              ELSE SubEval(s, [o EXCEPT !.j = @ + 1, !.vals = <<>>], form, env)
     [] o.op = "ignore-errors" ->
          IF n = 0 THEN OpReturn(s, VNil)
          ELSE LET s1 == IF o.j = 0 THEN [s EXCEPT !.frames = SetTop(@, [Top(@) EXCEPT !.tro = TRUE])] ELSE s IN
